@@ -311,6 +311,14 @@ example : reproduces [("Accept".toList, some "*/*".toList)]
       [("X-Empty".toList, []), ("A".toList, "b \"c\"".toList), ("Accept".toList, "text/html".toList)], ["A".toList]⟩) = true := by
   decide +kernel
 
+example : reproduces [("Accept".toList, some "*/*".toList)]
+    (original ⟨"POST".toList, "http://h/x?a=b&c='".toList, some "@it's $HOME `x`".toList, false,
+      [("X-Empty".toList, []), ("A".toList, "b \"c\"".toList), ("Accept".toList, "text/html".toList)], ["A".toList]⟩)
+    (generate ⟨.asFound, .asFound, .asFound⟩ [("Accept".toList, some "*/*".toList)]
+      ⟨"POST".toList, "http://h/x?a=b&c='".toList, some "@it's $HOME `x`".toList, false,
+      [("X-Empty".toList, []), ("A".toList, "b \"c\"".toList), ("Accept".toList, "text/html".toList)], ["A".toList]⟩) = false := by
+  decide +kernel
+
 /-- hypotheses of `reproduces_asFound_partial` are satisfiable by a request with headers, body and quoting -/
 example : let r : Req := ⟨"PUT".toList, "http://h/it's".toList, some "{\"a\": \"'\"}".toList, true,
       [("Content-Type".toList, "application/json".toList), ("Accept".toList, "*/*".toList), ("X-A".toList, "1".toList)], []⟩
